@@ -12,7 +12,7 @@ class P(MetProp):
     id = "C10"
     rule = ("count_over_time / sum by / sum without / nested without over records carrying 1-8 labels, with adversarial label sets: values and names that are prefixes or "
             "concatenations of one another ({ab=\"c\"} vs {a=\"bc\"}, {a=\"b\",c=\"d\"} vs {a=\"bc\",d=\"\"} ...), empty values, many labels (so that the order in which the "
-            "runtime materialises the label map varies between samples), range aggregations with their own without() under an outer without() over several steps. Each case is "
+            "runtime materialises the label map varies between samples), label values `| json` took from numbers and booleans next to their string twins, range aggregations with their own without() under an outer without() over several steps. Each case is "
             "evaluated twice in one process and the results must coincide; demanded on the observed results: no two series with one label set, the window reading "
             "range_spec_at (samples grouped by label set and by nothing else), and per step the counts add up to the number of samples in the window.")
 
@@ -54,8 +54,24 @@ class P(MetProp):
         recs = m.records(rng.randint(5, 14), start - rng_ns, (end - start) + rng_ns, ls, lines=("x",), numeric="v", values=[1, 2, 3, 5])
         sel = sel_all(m)
         drop = [m.g.st_dropkeep("drop", ["msg", "v"], [])]
-        kind = rng.choice(["count", "count", "sumby", "sumwithout", "nestedwithout", "unwrapmax", "emptyjoin", "nestedby", "nestedby"])
+        kind = rng.choice(["count", "count", "sumby", "sumwithout", "nestedwithout", "unwrapmax", "emptyjoin", "nestedby", "nestedby", "typed"])
+        orc = oracles_coq()
+        if kind == "typed":
+            # label values that `| json` took from numbers and booleans (typed attribute values, not strings), next to their string twins:
+            # 200 / 404 / 500, true / false, 0.5 / 1.5 are different values, "200" and 200 the same one
+            docs = [[("status", ("num", "200", "200")), ("ok", True)], [("status", ("num", "404", "404")), ("ok", False)], [("status", ("num", "500", "500")), ("ok", True)],
+                    [("status", "200"), ("ok", "true")], [("took", ("num", "0.5", "0.5"))], [("took", ("num", "1.5", "1.5")), ("ok", False)], [("status", ("num", "200", "200"))]]
+            jls = [egen.JLine(rng, d) for d in docs]
+            recs = m.records(rng.randint(6, 14), start - rng_ns, (end - start) + rng_ns, [{"app": "a"}], lines=[jl.text for jl in jls], numeric=None)
+            orc = oracles_coq(jsonl=egen.dedup([(B(jl.text), jl.coq) for jl in jls]))
+            names = ["status", "ok", "took", "app"]
+            drop = [m.g.st_json(), m.g.st_dropkeep("drop", ["msg"], [])]
+            kind2 = rng.choice(["count", "sumby", "sumwithout"])
         inner = m.mrange("count_over_time", sel, drop, rng_ns)
+        if kind == "typed":
+            kind, typed = kind2, True
+        else:
+            typed = False
         rels = []
         if kind == "count":
             e = inner
@@ -94,7 +110,7 @@ class P(MetProp):
         rels += ["MRelEqual 0 1", "MRelSameAt 0 2 %d" % (end // 10**6)]
         if kind in ("count", "unwrapmax"):
             rels += ["MRelRangeSpec 1", "MRelRangeSpec 2"]
-        return {"kind": kind, "recs": [m.g.rec_json(r) for r in recs], "oracle": oracles_coq(), "evals": evals, "rels": rels, "ops": [kind],
+        return {"kind": "typed-" + kind if typed else kind, "recs": [m.g.rec_json(r) for r in recs], "oracle": orc, "evals": evals, "rels": rels, "ops": [kind],
                 "note": "label sets %r" % (ls,)}
 
 
